@@ -62,7 +62,7 @@ def execute(rec):
 
     cfg = rec["config"]
     setup_run(claripy, cfg)
-    sched = Scheduler(cfg["sched_seed"], policy=cfg.get("policy", "random"), switch_pct=100, max_steps=400000)
+    sched = Scheduler(cfg["sched_seed"], policy=cfg.get("policy", "random"), switch_pct=100, max_steps=4000000)
     sched.expected_steps = 300
     lock = SimLock(sched)
     saved_lock = bz._gc_lock
